@@ -239,6 +239,39 @@ def validate_traces(run, module, traces, cfg=None, label="", props=None, extra_d
     return results
 
 
+def validate_insts(run, module, insts, cfg, label="", props=None, programs=None, chunk=400, parallel=4, heap="3g", workers=None, extra_data=None):
+    """Hand Soundness instances to TLC (chunks side by side).  On violation: replay file + VIOLATION line."""
+    from concurrent.futures import ThreadPoolExecutor
+    active = active_ids(props or [run.prop])
+    chunks = [insts[i:i + chunk] for i in range(0, len(insts), chunk)]
+    if not chunks:
+        return []
+    parallel = max(1, min(parallel, len(chunks)))
+    w = workers or max(2, NPROC // parallel)
+
+    def job(ch):
+        data = {"insts": ch, "active": active}
+        if extra_data:
+            data.update(extra_data)
+        return _tlc_on_chunk(module, cfg, data, w, False, False, heap)
+    with ThreadPoolExecutor(parallel) as ex:
+        results = list(ex.map(job, chunks))
+    for ci, (ch, res) in enumerate(zip(chunks, results)):
+        run.add_tlc(res, "%s#%d" % (label or module, ci))
+        run.traces += len(ch)
+        if res.violated:
+            tid = int(res.state.get("tid", "0") or 0)
+            inst = ch[tid - 1] if 0 < tid <= len(ch) else None
+            prog = next((p for p in (programs or []) if inst and p["id"] == inst["id"]), None)
+            cfgd = {"P": inst["P"], "bitlength": inst["bitlength"], "resolution": inst["resolution"]} if inst else None
+            run.violation({"stage": label or module, "module": module, "tlc_cfg": cfg, "invariant": res.violated,
+                           "tlc_state": res.state, "trace_id": inst["id"] if inst else None, "cfg": cfgd, "program": prog,
+                           "instance": inst,
+                           "summary": "%s false for instance %s: adversarial witness pub=%s priv=%s (honest priv=%s)" % (
+                               res.violated, inst["id"] if inst else "?", res.state.get("apub"), res.state.get("apriv"), inst["priv"] if inst else "?")})
+    return results
+
+
 def brief(ev):
     if not ev:
         return ""
